@@ -20,6 +20,22 @@ FAIL = {
     'blockhelper': ('{{#nohelper}}x{{/nohelper}}', 'HelperNotFound'),
 }
 TEXTS = ['abc', 'é日本', 'x y', '😀', '', 'T:']
+# constructs that may precede the failing tag in the SAME element list (each renders without error): every
+# element kind, with and without `~`, after blank-only and after non-blank text (the position vector is
+# parallel to the element list, so an element dropped or added on one side only shifts every later position)
+SIBS = ['{{@root.v}}', '{{{@root.v}}}', '{{~@root.v}}', '{{@root.v~}}', '{{~@root.v~}}', ' ', '  ', '\t', 'w', 'é', '{{!c}}', '{{!-- c --}}',
+        '{{#if @root.t}}y{{/if}}', '{{~#if @root.t~}} y {{~/if~}}', '{{#if @root.f}}n{{else}} e{{/if}}', '{{#if @root.f}}n{{~else~}} e{{/if}}',
+        '{{> ok}}', '{{~> ok}}', '{{> ok~}}', '{{#*inline "z"}}i{{/inline}}', '{{~#*inline "z"}}i{{/inline}}',
+        '{{{{raw}}}} r {{{{/raw}}}}', '\\{{esc}}', '{{#> ok}}d{{/ok}}', '{{~#each @root.l~}} {{this}} {{~/each}}']
+
+def siblings(rng, nl):
+    if rng.random() < 0.4:
+        return ''
+    out = []
+    for _ in range(rng.randint(1, 5)):
+        r = rng.random()
+        out.append(nl + rng.choice(['', ' ', '  ']) if r < 0.15 else rng.choice(SIBS))
+    return ''.join(out)
 
 def linecol(src, idx):
     """pest line/col of character offset idx (CRLF counts as one break, lone CR as a column)"""
@@ -48,8 +64,8 @@ def gen_cases(rng, tier, scale):
         MARK = '\x00'
         pre_lines = ''.join(rng.choice(TEXTS) + ('{{v}}' if rng.random() < 0.3 else '') + nl for _ in range(rng.randint(0, 3)))
         ind = rng.choice(['', ' ', '  é'])
-        body = ind + MARK
-        parts = {}
+        body = siblings(rng, nl) + ind + MARK
+        parts = {'ok': 'O'}
         errtpl = 'main'
         if where == 'top':
             main = pre_lines + 'a ' + body + ' b'
